@@ -30,9 +30,18 @@ entry is returned.  Structure: symoffset <= first defined symbol, the bucket cha
 dynsym[symoffset..] exactly, every chain ends with the terminator bit inside the section, both bloom
 bits set for every hashed symbol, SysV nchain == dynsym count and no cyclic chain.
 
+Large tables (both tiers): outputs exporting the whole pool plus N generated names, N on both
+sides of every power of two / u16 limit that a chunked or sharded writer could use (4095..4097,
+8191..8193, 16385, 65535..65537; 1599/1601 = where wild's dynsym writer's chunk size
+max(10, n/10/threads) leaves its floor with 16 threads; quick: 4097, 8191, 8192, 8193, 65537)
+x hash style x {-shared, PIE}: EVERY defined dynamic symbol is looked up through every table and
+the structural invariants are checked over the whole table (incl. terminator bit set exactly at
+the last symbol of each bucket's run).
+
 Second opinion (thorough): glibc itself.  The -shared members of the 8-name sub-pool (styles gnu
 and sysv) are dlopen()ed by a small C host, 64 libraries per process, which dlsym()s / dlvsym()s
-every expected name and the absent ones and prints the addresses."""
+every expected name and the absent ones and prints the addresses; one more host run dlsym()s all
+65537+ names of the largest library (styles gnu and sysv)."""
 import hashlib
 import itertools
 import json
@@ -70,6 +79,8 @@ KIND_ARGS = {
     "pie": ["-pie", "--export-dynamic", "--dynamic-linker", "/lib64/ld-linux-x86-64.so.2"],
     "spie": ["-pie", "--export-dynamic"],
 }
+LARGE_QUICK = [4097, 8191, 8192, 8193, 65537]
+LARGE_THOROUGH = [1599, 1601, 4095, 4096, 4097, 8191, 8192, 8193, 16385, 65535, 65536, 65537]
 VERSION_SCRIPT = "V1 { };\nV2 { } V1;\n"
 
 
@@ -164,7 +175,7 @@ def _obj(path, funcs=(), tls=(), abssyms=()):
     o.write(path)
 
 
-def make_inputs(d):
+def make_inputs(d, pads=(1, 33, 300)):
     os.makedirs(d, exist_ok=True)
     for i, (name, _role) in enumerate(POOL):
         _obj(os.path.join(d, f"p{i}.o"), [name])
@@ -175,7 +186,7 @@ def make_inputs(d):
     o.note_gnu_stack()
     o.write(os.path.join(d, "nil.o"))
     _obj(os.path.join(d, "ver.o"), ["f@V1", "f@@V2"])
-    for k in (1, 33, 300):
+    for k in pads:
         _obj(os.path.join(d, f"pad{k}.o"), pad_names(k), tls=["tls0"],
              abssyms=[("abs0", 0), ("abs5", 5)])
     with open(os.path.join(d, "v.map"), "w") as f:
@@ -481,6 +492,25 @@ class Loaded:
                         if c & 1:
                             break
                         i += 1
+                # Linear view: the terminator bit is set exactly at the last symbol of each run
+                # of equal buckets (so a bucket's chain ends where the next bucket's begins).
+                nb, prev_b, bad_mid, bad_miss = g["nbuckets"], None, [], []
+                raw = struct.unpack_from("<%dI" % (self.nsyms - g["symbias"]), self.data,
+                                         g["chain_begin"])
+                bks = [dl_new_hash(self.sym(i)[0]) % nb for i in range(g["symbias"], self.nsyms)]
+                for k, c in enumerate(raw):
+                    last = k + 1 == len(raw) or bks[k + 1] != bks[k]
+                    if c & 1 and not last:
+                        bad_mid.append(k + g["symbias"])
+                    elif last and not c & 1:
+                        bad_miss.append(k + g["symbias"])
+                if bad_mid:
+                    v.append(("gnu:struct:terminator-inside-bucket",
+                              f"{len(bad_mid)} chain words end a chain before the last symbol of "
+                              f"their bucket: dynsym {bad_mid[:6]} of {self.nsyms}"))
+                if bad_miss:
+                    v.append(("gnu:struct:terminator-missing",
+                              f"last symbol of a bucket without the end bit: dynsym {bad_miss[:6]}"))
                 missing = [i for i in range(g["symbias"], self.nsyms) if i not in covered]
                 if missing:
                     v.append(("gnu:struct:symbol-in-no-chain",
@@ -670,7 +700,13 @@ def run_member(item):
         viol, stats, dl = [("output-malformed", str(ex))], {}, None
     if not keep:
         os.unlink(out)
-    return m, rc, "", viol, stats, dl
+    seen, short = {}, []
+    for key, what in viol:                  # at most 3 instances of a key per member
+        seen[key] = seen.get(key, 0) + 1
+        if seen[key] <= 3:
+            short.append((key, what))
+    stats["violations_total"] = len(viol)
+    return m, rc, "", short, stats, None
 
 
 # ------------------------------------------------------------------------------ dlopen (glibc)
@@ -831,6 +867,15 @@ def members(thorough):
     return out
 
 
+def large_members(thorough):
+    """The whole pool + N generated names (+ TLS / absolute extras)."""
+    ns = LARGE_THOROUGH if thorough else LARGE_QUICK
+    vers = (0, 1) if thorough else (0,)
+    return [((1 << len(POOL)) - 1, style, kind, n, v)
+            for n in sorted(ns, reverse=True) for style in STYLES for kind in ("shared", "pie")
+            for v in vers]
+
+
 def describe(m):
     mask, style, kind, pad, versioned = m
     return {"exports": [POOL[i][0][:40] for i in range(len(POOL)) if mask >> i & 1],
@@ -852,7 +897,7 @@ def replay(chk):
         doc = json.load(f)
     m = tuple(doc["replay"]["member"])
     base = os.path.join("/dev/shm", f"verif.c08replay.{os.getpid()}")
-    make_inputs(os.path.join(base, "in"))
+    make_inputs(os.path.join(base, "in"), pads=sorted({1, 33, 300, m[3]} - {0}))
     m2, rc, msg, viol, stats, _dl = run_member((base, m, "out"))
     print("directory:", base)
     print("argv: cd", os.path.join(base, "in"), "&&", vlib.WILD, " ".join(member_argv(m, "../out")))
@@ -876,6 +921,8 @@ def main():
     if chk.seed:
         import random
         random.Random(chk.seed).shuffle(fam)
+    large = large_members(chk.thorough)
+    large_ns = sorted({m[3] for m in large})
     n_eval = 0
     digests = set()
     shapes_gnu, shapes_sysv = set(), set()
@@ -886,8 +933,22 @@ def main():
     samples = []
     dl_stats = dict(libraries=0, queries=0, processes=0)
     with vlib.scratch("c08") as base:
-        make_inputs(os.path.join(base, "in"))
-        results = wildrun.pmap(run_member, [(base, m, None) for m in fam], chunksize=16)
+        import time
+        phase, t_ph = {}, [time.time()]
+
+        def lap(name):
+            phase[name] = round(time.time() - t_ph[0], 1)
+            t_ph[0] = time.time()
+
+        make_inputs(os.path.join(base, "in"), pads=[1, 33, 300] + large_ns)
+        lap("inputs")
+        # The large members first and one per task (the biggest take seconds each).
+        results = list(vlib.pmap_unordered(run_member, [(base, m, None) for m in large]))
+        n_large = len(results)
+        large_syms = sum(r[4].get("n_defined", 0) for r in results)
+        lap("large-tables")
+        results += wildrun.pmap(run_member, [(base, m, None) for m in fam], chunksize=16)
+        lap("pool-family")
         for m, rc, msg, viol, stats, _dl in results:
             n_eval += 1
             if rc != 0:
@@ -922,9 +983,14 @@ def main():
             sub = [(mask, style, "shared", pad, versioned)
                    for mask in range(1 << 8) for style in ("gnu", "sysv")
                    for pad, versioned in ((0, 0), (0, 1), (33, 1))]
+            big = [((1 << len(POOL)) - 1, style, "shared", max(large_ns), 1)
+                   for style in ("gnu", "sysv")]
+            sub = big + sub
             linked = wildrun.pmap(dl_link, [(base, m, i) for i, m in enumerate(sub)], chunksize=8)
             ok = [(m, p, dl) for m, p, dl in linked if p and dl is not None]
-            batches = [(host, base, ok[i:i + 64]) for i in range(0, len(ok), 64)]
+            nbig = sum(1 for x in ok if x[0] in big)
+            batches = [(host, base, [x]) for x in ok[:nbig]] + \
+                      [(host, base, ok[i:i + 64]) for i in range(nbig, len(ok), 64)]
             for out, nq, nlib in vlib.pmap(dl_batch, batches, procs=8, chunksize=1):
                 dl_stats["libraries"] += nlib
                 dl_stats["queries"] += nq
@@ -936,6 +1002,7 @@ def main():
                     else:
                         chk.violation(key, what + f"; member {json.dumps(describe(m))[:300]}",
                                       replay_dict(m))
+        lap("glibc-dlopen")
     chk.coverage = {
         "evaluations": n_eval,
         "distinct_nontrivial": len(digests),
@@ -949,6 +1016,10 @@ def main():
         "family": {"subsets": 1 << (10 if chk.thorough else 8), "styles": STYLES,
                    "kinds": ["shared", "pie", "spie"] if chk.thorough else ["shared", "pie"],
                    "padding": [0, 1, 33, 300] if chk.thorough else [0], "versioned": [0, 1]},
+        "phase_wall_s": phase,
+        "large_table_members": n_large,
+        "large_table_export_counts": large_ns,
+        "large_table_symbols_each_looked_up_in_every_table": large_syms,
         "links": n_eval + dl_stats["libraries"],
         "link_failed": link_failed,
         "lookups": tot["lookups"],
@@ -961,12 +1032,13 @@ def main():
         "sysv_nbucket_values": sorted(shapes_sysv),
         "glibc_dlopen": dl_stats,
         "subprocesses": dl_stats["processes"],
-        "thinning": ("quick: pool of the first 8 names, no padding, no static-pie flavour"
+        "thinning": ("quick: pool of the first 8 names, no padding, no static-pie flavour; large "
+                     "tables: N in 4097, 8191, 8192, 8193, 65537, unversioned"
                      if not chk.thorough else
                      "static-pie flavour only with paddings 0 and 33, otherwise none for the transcription "
                      "oracle; glibc dlopen stage: -shared members of the "
                      "8-name sub-pool x {gnu,sysv} x {(pad 0, plain), (pad 0, versioned), "
-                     "(pad 33, versioned)}"),
+                     "(pad 33, versioned)} + the 65537-name versioned library x {gnu,sysv}"),
     }
     chk.assumptions = [
         "the lookup oracle is a transcription of glibc 2.36 do_lookup_x/check_match (x86-64, no "
